@@ -140,12 +140,20 @@ class Box(object):
         return self.items + other
 
 
-def make_flow(n, data="list"):
+FLOWS = ("distinct", "same")
+
+
+def make_flow(n, data="list", flow="distinct"):
     """n values; each has list data (or, data="obj", a user object holding the list) and a private
-    nested context (no aliasing between values)."""
-    return [([j] if data == "list" else Box([j]),
-             {"id": j, "tag": "t", "nest": {"k": [j]}, "output": {"prefix": "p"}})
-            for j in range(n)]
+    nested context (no aliasing between values). flow="distinct": the values differ from each other in
+    data and context; flow="same": all values are EQUAL (data and context) and still every one is made
+    of its own objects - equality is not aliasing."""
+    out = []
+    for j in range(n):
+        m = j if flow == "distinct" else 0
+        out.append(([m] if data == "list" else Box([m]),
+                    {"id": m, "tag": "t", "nest": {"k": [m]}, "output": {"prefix": "p"}}))
+    return out
 
 
 class Usr(object):
@@ -270,11 +278,49 @@ class Outcome(object):
     """What one drive() observed."""
 
 
-def drive(container, kinds, bufsize, n, mode, hostile, want_mutated=False):
-    """Build a fresh Split/Zip from *kinds*, a fresh flow of *n* values, drive it in *mode*; the
-    consumer poisons every value it receives before asking for the next one when *hostile*."""
+def units(objs):
+    """The flow values among what left a branch: an output that is a list (the group StoreFilled
+    yields) counts by its members, every other output as one value."""
+    out = []
+    for o in objs:
+        if isinstance(o, list):
+            out.extend(o)
+        else:
+            out.append(o)
+    return out
+
+
+def alias_pattern(objs):
+    """Which of the values that left one branch share a dict/list/user object with an EARLIER value of
+    the same branch: sorted tuple of (index of the first value holding the object, index of the later
+    value). () = no two values of the branch have a mutable object in common."""
+    first = {}
+    pairs = set()
+    for k, u in enumerate(units(objs)):
+        for i in container_ids(u):
+            f = first.setdefault(i, k)
+            if f != k:
+                pairs.add((f, k))
+    return tuple(sorted(pairs))
+
+
+ORIGINS = ("fresh", "copy")
+
+
+def drive(container, kinds, bufsize, n, mode, hostile, want_mutated=False, flow="distinct",
+          origin="fresh"):
+    """Build a fresh Split/Zip from *kinds*, a fresh flow of *n* values (see make_flow for *flow*), drive
+    it in *mode*; the consumer poisons every value it receives before asking for the next one when
+    *hostile*.
+
+    origin="copy": the container just built (the *template*) is deep-copied before it has seen any
+    value - what SplitIntoBins does with its sequence for every bin, MapBins for every cell, and what a
+    user may do with any element. Template and copy are then both driven, each over its own fresh flow
+    (equal flows), taking turns value by value; the copy gives its results first. out.taps / out.objs
+    are those of the copy, out.taps_t / out.objs_t those of the template."""
     out = Outcome()
     out.taps, out.objs, out.received = [], [], []
+    out.taps_t = out.objs_t = None
     out.exc = out.construct_exc = None
     out.mutated_input = False
     explicit = container.startswith("zip") or (bufsize is None)
@@ -291,37 +337,66 @@ def drive(container, kinds, bufsize, n, mode, hostile, want_mutated=False):
     except Exception as e:      # construction problems are not C04's business
         out.construct_exc = type(e).__name__
         return out
-    flow = make_flow(n, "obj" if container == "zip-obj" else "list")
-    before = canon(flow) if want_mutated else None
+    data = "obj" if container == "zip-obj" else "list"
+    machines = [(el, taps, make_flow(n, data, flow))]
+    before = canon(machines[0][2]) if want_mutated else None
+
+    def receive(val):
+        out.received.append(val)
+        if hostile:
+            poison(val)
 
     def consume(gen):
         for val in gen:
-            out.received.append(val)
-            if hostile:
-                poison(val)
+            receive(val)
 
     try:
+        if origin == "copy":
+            el2, taps2 = copy.deepcopy((el, taps))
+            machines.append((el2, taps2, make_flow(n, data, flow)))
+        elif origin != "fresh":
+            raise ValueError(origin)
+        givers = machines[::-1]
         if mode == "run":
-            consume(el.run(iter(flow)))
+            live = [m.run(iter(f)) for m, _, f in machines]
+            while live:
+                for gen in list(live):
+                    try:
+                        val = next(gen)
+                    except StopIteration:
+                        live.remove(gen)
+                        continue
+                    receive(val)
         elif mode == "fill_compute":
-            for val in flow:
-                el.fill(val)
-            consume(el.compute())
+            for j in range(n):
+                for m, _, f in machines:
+                    m.fill(f[j])
+            for m, _, _ in givers:
+                consume(m.compute())
         elif mode == "fill_request_end":
-            for val in flow:
-                el.fill(val)
-            consume(el.request())
+            for j in range(n):
+                for m, _, f in machines:
+                    m.fill(f[j])
+            for m, _, _ in givers:
+                consume(m.request())
         elif mode == "fill_request_each":
-            for val in flow:
-                el.fill(val)
-                consume(el.request())
+            for j in range(n):
+                for m, _, f in machines:
+                    m.fill(f[j])
+                for m, _, _ in givers:
+                    consume(m.request())
         else:
             raise ValueError(mode)
     except Exception as e:
         out.exc = type(e).__name__
+    taps = machines[-1][1]
     out.taps = [tuple(t.snaps) for t in taps]
     out.objs = [t.objs for t in taps]
-    out.mutated_input = want_mutated and canon(flow) != before
+    if len(machines) == 2:
+        out.taps_t = [tuple(t.snaps) for t in machines[0][1]]
+        out.objs_t = [t.objs for t in machines[0][1]]
+    out.alias = [alias_pattern(objs) for objs in out.objs]
+    out.mutated_input = want_mutated and canon(machines[0][2]) != before
     return out
 
 
